@@ -626,12 +626,16 @@ pub fn listen<S: ?Sized + AsRef<str>, H: crate::ConnectionHandler + Send + Sync 
             // connection was upgraded; they go in front of the stream again
             let mut unread: Vec<u8> = Vec::new();
             loop {
+                // handle() reads through a buffer of its own: what it did not
+                // even fetch from `unread` stays ours
+                let mut pending = &unread[..];
                 let res = {
-                    let mut rd = ::std::io::Read::chain(&unread[..], &mut br);
+                    let mut rd = ::std::io::Read::chain(&mut pending, &mut br);
                     handler.handle(&mut rd, &mut w, iface.clone())
                 };
                 match res {
-                    Ok((rest, i)) => {
+                    Ok((mut rest, i)) => {
+                        rest.extend_from_slice(pending);
                         let just_upgraded = iface.is_none() && i.is_some();
                         let progressed = rest != unread;
                         iface = i;
